@@ -11,7 +11,7 @@ EXPLANATION = (
     "(refuse directed) and weakly_/strongly_connected_components (refuse undirected), every block that can produce a non-error "
     "return value is reachable from the entry only through the continue edge of a guard -- a test of specs.directed, or the "
     "Ok/Continue outcome of a call (on the same graph) to a crate function that itself refuses; decided by deleting the edge and "
-    "testing CFG reachability, recursively through callees.  NOT decided: that the returned sets are the equivalence classes of "
+    "testing CFG reachability, recursively through callees.  R-C10-8: the position-keyed adjacency sets a search may expand through get the same updates as the name-keyed ones.  NOT decided: that the returned sets are the equivalence classes of "
     "the reachability relation, BFS order/completeness, partition sizes (run-time graph properties)."
 )
 TRUSTED = ["rustc MIR construction", "CFG paths over-approximate executions"]
@@ -202,4 +202,7 @@ def run(ctx):
     from graphrules import adjacency_entries_only_for_new_nodes
 
     adjacency_entries_only_for_new_nodes(ctx, prog, flows, "R-C10-3", "so searches that walk `%s` stop at that node")
+    from graphrules import adjacency_set_updates_agree
+
+    adjacency_set_updates_agree(ctx, prog, flows, "R-C10-8", "a search that expands a node through the position-keyed sets then misses an undirected edge whose endpoints were given in descending order, while the component algorithms that read the name-keyed maps still see it: the same graph gets different components / reachable sets from different entry points")
     ctx.note("bfs_equal_size_partitions and breadth_first_search have no error channel; they cannot refuse and are handled under C20")
